@@ -16,8 +16,8 @@ ASSUME TLCSet(42, 0)
 tvars == <<vars, l>>
 
 IsEv(e) == l <= Len(Log) /\ Log[l].e = e /\ l' = l + 1
-TInit == l = 1 /\ pi = 0 /\ st = <<>> /\ lastCall = <<0, 0>> /\ lastOut = <<>> /\ lastRet = [ret |-> FALSE, open |-> FALSE] /\ viol = {}
-TProg == /\ IsEv("Prog") /\ pi' = l /\ st' = InitSt(Log[l].p) /\ lastCall' = <<0, 0>> /\ lastOut' = <<>>
+TInit == l = 1 /\ prog = <<>> /\ pi = 0 /\ st = <<>> /\ lastCall = <<0, 0>> /\ lastOut = <<>> /\ lastRet = [ret |-> FALSE, open |-> FALSE] /\ viol = {}
+TProg == /\ IsEv("Prog") /\ pi' = l /\ prog' = Log[l].p /\ st' = InitSt(Log[l].p) /\ lastCall' = <<0, 0>> /\ lastOut' = <<>>
          /\ lastRet' = [ret |-> FALSE, open |-> FALSE] /\ viol' = {}
 TCall == /\ IsEv("Call") /\ pi # 0
          /\ \E so \in StopOrders : \E x \in {StepOf(st, Log[l].c, so)} :
@@ -25,8 +25,8 @@ TCall == /\ IsEv("Call") /\ pi # 0
               /\ (x.ret.open \/ B2I(x.ret.ret) = Log[l].ret)
               /\ ReportedMatches(x.st, Log[l].q)
               /\ st' = x.st /\ lastOut' = x.out /\ lastRet' = x.ret /\ lastCall' = Log[l].c /\ viol' = x.viol
-         /\ UNCHANGED pi
-TReset == /\ IsEv("Reset") /\ pi' = 0 /\ st' = <<>> /\ lastCall' = <<0, 0>> /\ lastOut' = <<>>
+         /\ UNCHANGED <<prog, pi>>
+TReset == /\ IsEv("Reset") /\ pi' = 0 /\ prog' = <<>> /\ st' = <<>> /\ lastCall' = <<0, 0>> /\ lastOut' = <<>>
           /\ lastRet' = [ret |-> FALSE, open |-> FALSE] /\ viol' = {}
 TNext == TProg \/ TCall \/ TReset
 TSpec == TInit /\ [][TNext]_tvars
